@@ -15,7 +15,7 @@ import copy
 
 from simprocesd.model import System, EventType
 from simprocesd.model.factory_floor import (Source, Sink, PartHandler, PartProcessor, Buffer, DecisionGate,
-                                            PartBatcher, Group, Maintainer, Part, PartGenerator, Batch)
+                                            PartBatcher, Group, Maintainer, Part, PartGenerator, Batch, ActionScheduler)
 
 from engine.ctx import Truncated
 
@@ -187,6 +187,11 @@ def build(world):
                 g = groups[gname]
                 group_objs[gname] = Group(gname, [world.dev[m] for m in g['devices']])
             obj = group_objs[gname].get_new_group_path(name, up)
+        elif k == 'scheduler':
+            sched = [(world.val(dd), st) for dd, st in zip(d['durs'], d['states'])]
+            obj = ActionScheduler(sched, name=name, is_cyclical=d.get('cyclical', True))
+            world.sched_calls = []
+            obj.register_object(object(), lambda s_, o_, t_, st_: world.sched_calls.append((t_, st_)))
         elif k == 'maintainer':
             obj = Maintainer(name, capacity=world.val(d.get('capacity', 10 ** 6)))
             world.maintainer = obj
@@ -347,7 +352,7 @@ def run_world(world, monitors):
 
 VALUE_KEYS = {'cycle', 'delay', 'value', 't', 'amount', 'capacity', 'dur', 'cost', 'needcap', 'interval', 'horizon',
               'addvalue', 'finish_offset'}
-VALUE_CONTAINERS = {'pools', 'res', 'batches', 'horizons', 'durs', 'needs', 'costs'}
+VALUE_CONTAINERS = {'pools', 'res', 'batches', 'horizons', 'durs', 'needs', 'costs'}   # 'durs' may be a dict (work orders) or a list (scheduler)
 
 
 class _TraceRecorder:
@@ -661,10 +666,11 @@ def run(shape, args, ctx):
     from engine.ctx import PropertyViolation
     world = World(ctx, shape['spec'], args)
     mons = [MONITORS[m] for m in shape['monitors']]
-    if shape.get('prop') != 'C03':
+    if shape.get('prop') not in ('C03', 'C13'):
         run_world(world, mons)
         return
-    # C03 also owns "a finite-horizon run of a well-posed model always returns" (DESIGN 4.7)
+    # C03 owns "a finite-horizon run of a well-posed model always returns" (DESIGN 4.7); in the C13 scenarios an
+    # escaping exception is the machine acting while it is down ('Invalid PartHandler state', 'Input part is missing')
     try:
         run_world(world, mons)
     except (PropertyViolation, Truncated):
@@ -677,7 +683,8 @@ def run(shape, args, ctx):
                 detail = ' | '.join(x.strip() for x in tb)[-600:]
             except Exception:
                 detail = type(e).__name__
-        ctx.fail('run did not return: an exception escaped the simulator', detail)
+        ctx.fail('run did not return: an exception escaped the simulator' if shape.get('prop') == 'C03' else
+                 'machine acted while shut down / in an invalid state: an exception escaped the simulator', detail)
 
 
 # =====================================================================================================
@@ -1192,6 +1199,17 @@ class DataMon(Monitor):
                 last = data['resource_update'][r][-1]
                 ctx.require(z(last[1]) == z(use) and z(last[2]) == z(cap), 'last resource_update record != pool', r)
                 ctx.goal('resource_recorded')
+            for n in w.order:
+                if w.kind[n] == 'scheduler':
+                    recs = data.get('schedule_update', {}).get(n, [])
+                    calls = getattr(w, 'sched_calls', [])
+                    ctx.require(len(recs) == len(calls), 'schedule_update records != state changes (actions invoked)', n)
+                    if recs:
+                        ctx.require(z(recs[-1][0]) == z(calls[-1][0]) and recs[-1][1] == calls[-1][1],
+                                    'schedule_update record != (time, state) of the change', n)
+                        ctx.goal('schedule_recorded')
+                    if len(recs) >= 2 and recs[-1][1] == recs[-2][1]:
+                        ctx.goal('schedule_change_to_equal_state_recorded')
             if w.maintainer is not None:
                 m = w.maintainer.name
                 nq, ns, nf = (len(data.get(l, {}).get(m, [])) for l in ('enter_queue', 'start_work_order', 'finish_work_order'))
@@ -1361,10 +1379,18 @@ class BatchMon(Monitor):
                 self.arrived[n], self.left[n] = [], []
                 self.size[n] = b.output_batch_size
                 b.add_receive_part_callback(self._in)
-                for dn in w.order:
-                    d = w.dev[dn]
-                    if b in getattr(d, '_upstream', []) and hasattr(d, 'add_receive_part_callback'):
-                        d.add_receive_part_callback(lambda dev, item, n=n: self._out(n, dev, item))
+                # the devices with a slot that receive what the batcher emits (through gates / pass-through controllers)
+                frontier, seen = [b], set()
+                while frontier:
+                    cur = frontier.pop()
+                    for dn in w.order:
+                        d = w.dev[dn]
+                        if cur in getattr(d, '_upstream', []) and dn not in seen:
+                            seen.add(dn)
+                            if hasattr(d, 'add_receive_part_callback'):
+                                d.add_receive_part_callback(lambda dev, item, n=n: self._out(n, dev, item))
+                            else:
+                                frontier.append(d)
 
     def _in(self, bat, item):
         w, ctx = self.w, self.ctx
@@ -1418,6 +1444,10 @@ class BatchMon(Monitor):
                         names = [d.name for d in leaf.routing_history]
                         if isinstance(item, Batch):
                             ctx.require(names[-1] == snk.name, 'routing history update of a batch did not reach a contained part', snk.name)
+                            bh = [d.name for d in item.routing_history]
+                            ctx.require(names[len(names) - len(bh):] == bh and names[0] in [x for x in w.order if w.kind[x] == 'source'],
+                                        'routing history of a contained part is not its own history followed by the batch\'s',
+                                        f'part {names} batch {bh}')
                             ctx.goal('history_reached_contained_part')
 
 
